@@ -10,6 +10,7 @@ import (
 	"math"
 	"strconv"
 	"strings"
+	"sync"
 
 	"github.com/safing/portbase/container"
 	"github.com/safing/portbase/formats/varint"
@@ -20,6 +21,12 @@ import (
 type exec struct {
 	c    *container.Container
 	kept *container.Container // most recently split-off container, read again later (kdump)
+	held []heldSlice          // the most recent byte slices the container handed out, looked at again later (held)
+}
+
+type heldSlice struct {
+	data []byte
+	was  string
 }
 
 func errStr(err error) string {
@@ -50,11 +57,22 @@ func (e *exec) Do(line string) string {
 	if f[0] == "new" {
 		e.c = container.New(hexes(f[1:])...)
 		e.kept = nil
+		e.held = nil
 		return "ok"
+	}
+	if f[0] == "conc" && len(f) == 4 { // implementation only: conc <goroutines> <steps> <seed>
+		n, _ := strconv.Atoi(f[1])
+		steps, _ := strconv.Atoi(f[2])
+		seed, _ := strconv.ParseUint(f[3], 10, 64)
+		if n < 1 || n > 64 {
+			return "bad-op"
+		}
+		return concurrentQueues(n, steps, seed)
 	}
 	if f[0] == "newc" { // the deprecated second constructor
 		e.c = container.NewContainer(hexes(f[1:])...)
 		e.kept = nil
+		e.held = nil
 		return "ok"
 	}
 	c := e.c
@@ -63,8 +81,23 @@ func (e *exec) Do(line string) string {
 	}
 	atoi := func() int { n, _ := strconv.ParseInt(f[1], 10, 64); return int(n) }
 	atou := func() uint64 { n, _ := strconv.ParseUint(f[1], 10, 64); return n }
-	b := func(x []byte) string { return "b " + hxlib.Hex(x) }
+	b := func(x []byte) string {
+		if len(x) > 0 {
+			e.held = append(e.held, heldSlice{x, hxlib.Hex(x)})
+			if len(e.held) > 6 {
+				e.held = e.held[1:]
+			}
+		}
+		return "b " + hxlib.Hex(x)
+	}
 	switch f[0] {
+	case "held": // the slices handed out earlier must still hold what they held when they were returned
+		for _, h := range e.held {
+			if now := hxlib.Hex(h.data); now != h.was {
+				return "changed: a slice returned as " + h.was + " now reads " + now
+			}
+		}
+		return "same"
 	case "append":
 		c.Append(hxlib.UnHex(f[1]))
 	case "prepend":
@@ -246,6 +279,109 @@ func (e *exec) Do(line string) string {
 	return "ok"
 }
 
+// concurrentQueues: containers are independent objects in the model (no state shared between containers). n
+// goroutines each drive a container of their own next to a plain byte queue of their own and compare every
+// result. Returns "ok" or the first failure.
+func concurrentQueues(n, steps int, seed uint64) string {
+	var wg sync.WaitGroup
+	start := make(chan struct{})
+	fails := make(chan string, n)
+	for g := 0; g < n; g++ {
+		wg.Add(1)
+		go func(g int) {
+			defer wg.Done()
+			defer func() {
+				if r := recover(); r != nil {
+					fails <- fmt.Sprintf("PANIC g=%d: %v", g, r)
+				}
+			}()
+			x := seed*0x9E3779B97F4A7C15 + uint64(g)*0xD1B54A32D192ED03 + 1
+			next := func() uint64 { x ^= x << 13; x ^= x >> 7; x ^= x << 17; return x }
+			c := container.New()
+			var q []byte
+			fail := func(it int, what string) { fails <- fmt.Sprintf("FAIL g=%d step=%d %s", g, it, what) }
+			<-start
+			for it := 0; it < steps; it++ {
+				r := next()
+				sl := bytes.Repeat([]byte{byte(g*16 + it%16)}, int(r>>8)%9)
+				switch r % 9 {
+				case 0:
+					c.Append(sl)
+					q = append(q, sl...)
+				case 1:
+					c.Prepend(sl)
+					q = append(append([]byte{}, sl...), q...)
+				case 2:
+					v := next() >> (r >> 16 % 64)
+					c.AppendNumber(v)
+					q = append(q, refPut(v)...)
+				case 3:
+					c.PrependLength()
+					q = append(refPut(uint64(len(q))), q...)
+				case 4:
+					c.AppendAsBlock(sl)
+					q = append(append(q, refPut(uint64(len(sl)))...), sl...)
+				case 5:
+					k := int(r>>8) % 7
+					d, err := c.Get(k)
+					if k > len(q) {
+						if err == nil {
+							fail(it, "Get beyond the end succeeded")
+							return
+						}
+						continue
+					}
+					if err != nil || !bytes.Equal(d, q[:k]) {
+						fail(it, fmt.Sprintf("Get(%d) = %x, %v; byte queue has %x", k, d, err, q[:k]))
+						return
+					}
+					q = q[k:]
+				case 6:
+					v, err := c.GetNextN64()
+					w, used, e := uvar(q, 10, math.MaxUint64)
+					if e != "" {
+						if err == nil {
+							fail(it, "GetNextN64 decoded something a byte queue cannot decode")
+							return
+						}
+						continue
+					}
+					if err != nil || v != w {
+						fail(it, fmt.Sprintf("GetNextN64 = %d, %v; byte queue has %d", v, err, w))
+						return
+					}
+					q = q[used:]
+				case 7:
+					if d := c.CompileData(); !bytes.Equal(d, q) {
+						fail(it, fmt.Sprintf("CompileData = %x, byte queue has %x", d, q))
+						return
+					}
+				default:
+					if c.Length() != len(q) {
+						fail(it, fmt.Sprintf("Length = %d, byte queue has %d", c.Length(), len(q)))
+						return
+					}
+					if len(q) > 400 {
+						d := c.GetAll()
+						if !bytes.Equal(d, q) {
+							fail(it, "GetAll differs from the byte queue")
+							return
+						}
+						q = nil
+					}
+				}
+			}
+		}(g)
+	}
+	close(start)
+	wg.Wait()
+	close(fails)
+	for f := range fails {
+		return f
+	}
+	return "ok"
+}
+
 var errWriterFull = errors.New("writer full")
 
 type budgetWriter struct {
@@ -337,6 +473,18 @@ func monitor(c hxlib.Case, outs []string) (vs []hxlib.Violation) {
 			return vs // state after a panic is undefined
 		}
 		if o == "bad-op" {
+			continue
+		}
+		if f[0] == "held" {
+			if o != "same" {
+				add(i, "returned-data-changed-later", o)
+			}
+			continue
+		}
+		if f[0] == "conc" {
+			if o != "ok" {
+				add(i, "concurrent-containers", o)
+			}
 			continue
 		}
 		want := "ok"
@@ -816,6 +964,12 @@ func generate(r *hxlib.Run, emit func(hxlib.Case)) {
 		lines = append(lines, "len", "dump")
 		emit(hxlib.Case{Lines: lines, NonTrivial: true, Kind: "narrow-numbers"})
 	}
+	// containers are independent objects in the model: goroutines driving containers of their own next to byte
+	// queues of their own (implementation only)
+	for i := 0; i < r.Budget(5, 40); i++ {
+		emit(hxlib.Case{Lines: []string{fmt.Sprintf("conc %d %d %d", []int{2, 4, 8, 16, 32}[rng.Intn(5)], r.Budget(20000, 200000), rng.Intn(1000))},
+			NonTrivial: true, Kind: "concurrent-containers", NoModel: true})
+	}
 	N := r.Budget(20000, 1500000)
 	for i := 0; i < N; i++ {
 		var lines []string
@@ -968,11 +1122,11 @@ func generate(r *hxlib.Run, emit func(hxlib.Case)) {
 			lines = append(lines, l)
 			r.Count("op:" + strings.Fields(l)[0])
 			if j%8 == 7 {
-				lines = append(lines, "len", "holds", "dump")
+				lines = append(lines, "len", "holds", "dump", "held")
 			}
 			held = (held + rng.Intn(12)) % 64
 		}
-		lines = append(lines, "len", "dump")
+		lines = append(lines, "len", "dump", "held")
 		emit(hxlib.Case{Lines: lines, NonTrivial: consuming > 0 && adding > 0 && prepends > 0, Kind: "random-sequence"})
 	}
 }
@@ -1052,7 +1206,7 @@ func oddJSON(rng interface{ Intn(int) int }) []byte {
 func main() {
 	hxlib.Main(&hxlib.Harness{
 		Prop:     "C16",
-		Rule:     "(also: both constructors New/NewContainer; MarshalJSON/UnmarshalJSON directly and through encoding/json, round trip into the same and into another used container, damaged base64 texts; JSON texts outside the modelled codec and short-writing writers on the implementation only; WriteAllTo into writers that fail after k bytes) (also: containers with 90–230 compartments consumed piecewise; split-off containers read again after the parent was modified) each case creates a container (empty / one slice / many slices incl. empty ones) and applies 1–60 (thorough: up to 400) random public method calls with slices of length 0, 1, 2–16, 200, numbers at all varint boundaries up to 2^64-1, requested lengths from {-5,-1,0,1,exact,exact±1,huge,MinInt}; Length/HoldsData/full dump after every 8th op and at the end. Non-trivial: at least one consuming op after at least one append and one prepend (so more than one compartment and the offset machinery are exercised); distinct by hash of the op lines.",
+		Rule:     "(also: 2–32 goroutines each driving a container of their own next to a byte queue of their own — ties that containers share no state) (also: both constructors New/NewContainer; MarshalJSON/UnmarshalJSON directly and through encoding/json, round trip into the same and into another used container, damaged base64 texts; JSON texts outside the modelled codec and short-writing writers on the implementation only; WriteAllTo into writers that fail after k bytes) (also: containers with 90–230 compartments consumed piecewise; split-off containers read again after the parent was modified) each case creates a container (empty / one slice / many slices incl. empty ones) and applies 1–60 (thorough: up to 400) random public method calls with slices of length 0, 1, 2–16, 200, numbers at all varint boundaries up to 2^64-1, requested lengths from {-5,-1,0,1,exact,exact±1,huge,MinInt}; Length/HoldsData/full dump after every 8th op and at the end. Non-trivial: at least one consuming op after at least one append and one prepend (so more than one compartment and the offset machinery are exercised); distinct by hash of the op lines.",
 		Generate: generate,
 		NewExec:  func(*hxlib.Run) hxlib.Exec { return &exec{} },
 		Monitor:  monitor,
